@@ -641,8 +641,8 @@ theorem substAbsList_embed : (fs : List Frag) → substAbsList [] (embedFragList
   | f :: fs => by simp [embedFragList, substAbsList, substAbs_embed f, substAbsList_embed fs]
 end
 
-theorem finishRoot_embed (h : Len) (f : Frag) : finishRoot h [] [] (embedFrag f) = embedFrag f := by
-  cases f <;> simp [embedFrag, finishRoot]
+theorem finishRoot_embed (h : Len) (f : Frag) : finishRoot h [] (substAbsList [] []) (embedFrag f) = embedFrag f := by
+  cases f <;> simp [embedFrag, finishRoot, substAbsList]
 
 theorem emptyRoot_embed (b : PBox) : emptyRoot (embed b) = embed (PM.emptyRoot b) := by
   cases b <;> simp [embed, emptyRoot, PM.emptyRoot, embedList]
